@@ -111,14 +111,20 @@ func keyToPublic(pk key.Key) (*goecdh.PublicKey, error) {
 		if err != nil {
 			return nil, err
 		}
-		compressed := make([]byte, 1+len(x))
+		size := (ecdsaCurve.Params().BitSize + 7) / 8
+		if len(x) > size {
+			return nil, fmt.Errorf("cose/key/ecdh: keyToPublic: invalid parameter x")
+		}
+		compressed := make([]byte, 1+size)
 		if boolY {
 			compressed[0] = 0x03
 		} else {
 			compressed[0] = 0x02
 		}
-		copy(compressed[1:], x)
-		ix, iy = elliptic.UnmarshalCompressed(ecdsaCurve, compressed)
+		copy(compressed[1+size-len(x):], x)
+		if ix, iy = elliptic.UnmarshalCompressed(ecdsaCurve, compressed); ix == nil {
+			return nil, fmt.Errorf("cose/key/ecdh: keyToPublic: (x, y) not on the curve")
+		}
 	}
 	k := ecdsa.PublicKey{Curve: ecdsaCurve, X: ix, Y: iy}
 	return k.ECDH()
